@@ -7,7 +7,7 @@ prop, k = sys.argv[1], sys.argv[2]
 wt = f"/tmp/mut/{prop}"
 patch = f"/tmp/mut/{prop}.{k}.patch.diff"
 demo = f"/tmp/mut/{prop}.{k}.demo"
-env = dict(os.environ, GOFLAGS="-mod=mod", GOPROXY="off", GOSUMDB="off", GOTOOLCHAIN="local")
+env = dict(os.environ, GOFLAGS="-mod=mod", GOPROXY="off", GOSUMDB="off", GOTOOLCHAIN="local", W=wt, WT=wt)
 def sh(c, cwd=wt):
     p = subprocess.run(c, shell=True, cwd=cwd, env=env, stdout=subprocess.PIPE, stderr=subprocess.STDOUT, text=True)
     return p.returncode, p.stdout
@@ -24,6 +24,7 @@ readme = open(os.path.join(demo, "README.txt")).read() if os.path.exists(os.path
 cmds, run = [], None
 for line in readme.split("\n"):
     l = line.strip().lstrip("$ ").strip()
+    l = re.sub(r"\s+#.*$", "", l)
     if re.match(r"^(cp|mkdir) ", l) and l not in cmds: cmds.append(l)
     if run is None and re.match(r"^(go test|go run|\(cd .*go (test|run))", l): run = l
 log.append(f"demo setup={cmds} run={run}")
